@@ -133,31 +133,43 @@ def pc_ops(ctx):
              'maps through SimpleRequirement._safe_str into pkg-config\'s '
              'operator set; every other operator is rejected')
     repo = ctx.repo
-    f = repo.func('bfg9000.versioning:simplify_specifiers')
-    loops = [n for n in walk_no_nested(f.node) if isinstance(n, ast.For)]
-    Q.require(loops, 'simplify_specifiers: no loop over the specifiers')
+    F = _facts(ctx)
+    f = F.fn('bfg9000.versioning:simplify_specifiers')
+    p0 = Q.params(f.node)[0]
+
+    def is_op(atoms):
+        return has(atoms, p0, 'operator')
+
+    def consts_of(atoms):
+        out = set()
+        for a in atoms:
+            if a.startswith('const:'):
+                try:
+                    v = ast.literal_eval(a[6:])
+                except Exception:
+                    continue
+                if isinstance(v, str):
+                    out.add(v)
+        return out
+    # the operators some branch accepts: constants an element's `.operator`
+    # is compared with (==, in) in the function itself (however the
+    # operator is named there)
     accepted = set()
+    for n in walk_no_nested(f.node):
+        if isinstance(n, ast.Compare) and len(n.ops) == 1 and isinstance(
+                n.ops[0], (ast.Eq, ast.In)) and is_op(
+                    F.atoms(n.left, f)):
+            accepted |= consts_of(F.atoms(n.comparators[0], f))
+    # ... and a raise reached only when every one of them failed
     rejected_else = False
-    for lp in loops:
-        for st in lp.body:
-            if isinstance(st, ast.If):
-                cur = st
-                while True:
-                    for n in ast.walk(cur.test):
-                        if isinstance(n, ast.Compare) and 'operator' in \
-                                unparse(n.left):
-                            v = const_eval(repo, f.module, n.comparators[0])
-                            if isinstance(v, str):
-                                accepted.add(v)
-                            elif isinstance(v, (list, tuple)):
-                                accepted |= set(v)
-                    if len(cur.orelse) == 1 and isinstance(
-                            cur.orelse[0], ast.If):
-                        cur = cur.orelse[0]
-                    else:
-                        rejected_else = any(isinstance(s, ast.Raise)
-                                            for s in cur.orelse)
-                        break
+    for n in walk_no_nested(f.node):
+        if isinstance(n, ast.Raise):
+            failed = set()
+            for op, l, r in F.guard_compares(n, f):
+                if op in ('NotEq', 'NotIn') and is_op(l):
+                    failed |= consts_of(r)
+            if accepted and failed >= accepted:
+                rejected_else = True
     Q.require(accepted, 'simplify_specifiers: operator dispatch not found')
     ctx.ob(R, 'simplify_specifiers|other-operators-rejected', rejected_else,
            f.node, 'operators outside {} are not rejected'.format(
